@@ -14,6 +14,7 @@ fn vs(@builtin(vertex_index) vi: u32) -> @builtin(position) vec4<f32> {
     return textureSampleLevel(t_a, s_near, vec2<f32>(f32(vi)), 0.0);
 }
 
+fn samp(t: texture_2d<f32>, s: sampler, uv: vec2<f32>) -> vec4<f32> { return textureSampleLevel(t, s, uv, 0.0); }
 fn pick(uv: vec2<f32>) -> vec4<f32> {
     let d0 = textureDimensions(t_a);
     let d1 = textureDimensions(t_b, 1);
@@ -32,5 +33,5 @@ fn fs_a(@location(0) uv: vec2<f32>) -> @location(0) vec4<f32> {
 @fragment
 fn fs_b(@location(0) uv: vec2<f32>) -> @location(0) vec4<f32> {
     let l = textureLoad(t_a, vec2<i32>(uv), 0);
-    return textureSampleLevel(t_b, s_lin, uv, 0.0) + l + vec4<f32>(f32(textureNumLayers(t_arr)));
+    return textureSampleLevel(t_b, s_lin, uv, 0.0) + l + samp(t_a, s_lin, uv) + samp(t_b, s_near, uv) + samp(t_a, s_near, uv) + vec4<f32>(f32(textureNumLayers(t_arr)));
 }
